@@ -95,6 +95,50 @@ fn insensitive_family(b: &mut Builder, tier: Tier) {
     }
 }
 
+/// long inputs: repetition counts around powers of two (chunked scanning, counters, small-buffer shortcuts)
+pub fn long_counts(tier: Tier) -> Vec<usize> {
+    let mut v = vec![7, 8, 9, 15, 16, 17, 31, 32, 33, 63, 64, 65, 127, 128, 129, 255, 256, 257];
+    if tier == Tier::Thorough {
+        v.extend([511, 512, 513, 1023, 1024, 1025, 4095, 4096, 4097, 65535, 65536, 65537]);
+    } else {
+        v.extend([1024, 4097]);
+    }
+    v
+}
+
+fn long_family(b: &mut Builder, tier: Tier) {
+    let leaves = c01_leaves();
+    let mut inputs: Vec<String> = Vec::new();
+    for n in long_counts(tier) {
+        inputs.push("bc".repeat(n));
+        inputs.push(format!("{}b", "bc".repeat(n)));
+        inputs.push(format!("{}c", "b".repeat(n)));
+        inputs.push(format!("{}bc", " ".repeat(n)));
+        inputs.push(format!("b{}c", " ".repeat(n)));
+        inputs.push(format!("{}cb{}", "cb".repeat(n / 2), " \t\n".repeat(n / 3)));
+    }
+    let spec = InputSpec::List(inputs);
+    let bodies = vec![
+        seq(vec![star(lit("bc")), Expr::Eoi]),
+        seq(vec![star(rref("X")), opt(lit("c"))]),
+        seq(vec![plus(choice(vec![lit("b"), seq(vec![lit("c"), lit("b")])])), opt(lit("c")), Expr::Eoi]),
+        seq(vec![star(rref("char")), Expr::Eoi]),
+        seq(vec![star(seq(vec![not(lit("c")), rref("char")])), lit("c")]),
+        seq(vec![lit("b"), lit("c"), Expr::Eoi]),
+        seq(vec![star(range('b', 'c')), star(rref("Z")), Expr::Eoi]),
+    ];
+    for e in bodies {
+        for noskip in [false, true] {
+            let mut dirs = vec![Directive::Export, Directive::Position];
+            if noskip {
+                dirs.push(Directive::NoSkipWs);
+            }
+            let g = root_grammar(dirs, e.clone(), &leaves);
+            add_if_wf(b, "long-inputs", g, &spec);
+        }
+    }
+}
+
 pub fn c01(tier: Tier) -> Vec<Case> {
     let mut b = Builder::new();
     let leaves = c01_leaves();
@@ -135,6 +179,7 @@ pub fn c01(tier: Tier) -> Vec<Case> {
     // escapes and @char classes
     charclass_family(&mut b, tier);
     insensitive_family(&mut b, tier);
+    long_family(&mut b, tier);
     b.cases
 }
 
@@ -324,6 +369,40 @@ pub fn c02(tier: Tier) -> Vec<Case> {
         let g = root_grammar(vec![Directive::Export, Directive::NoSkipWs], e.clone(), &leaves);
         add_if_wf(&mut b, "fields", g, &inputs);
     }
+    // long repetitions: many matches collected into one field
+    {
+        let mut inputs: Vec<String> = Vec::new();
+        for n in long_counts(Tier::Quick) {
+            inputs.push("b".repeat(n));
+            inputs.push(format!("{}c", "cb".repeat(n)));
+            inputs.push(format!("{}a", "bc".repeat(n)));
+        }
+        let spec = InputSpec::List(inputs);
+        for e in [
+            star(field("f", "X")),
+            seq(vec![star(choice(vec![field("f", "Y"), seq(vec![lit("c"), field("g", "X")])])), opt(field("c", "char"))]),
+            star(seq(vec![field("f", "X"), opt(field("g", "Y"))])),
+            plus(field("n", "N")),
+            seq(vec![star(field("c", "char")), Expr::Eoi]),
+        ] {
+            let g = root_grammar(vec![Directive::Export, Directive::NoSkipWs], e, &leaves);
+            add_if_wf(&mut b, "long-inputs", g, &spec);
+        }
+    }
+    // closures whose iterations contribute a varying number of matches to one field
+    {
+        let spec = InputSpec::Strings { alphabet: vec!['a', 'b', 'c'], max_len: if tier == Tier::Quick { 6 } else { 7 } };
+        for e in [
+            star(seq(vec![star(field("f", "X")), lit("a")])),
+            star(seq(vec![field("f", "X"), opt(field("f", "X")), lit("a")])),
+            star(choice(vec![seq(vec![lit("a"), field("f", "Y"), field("f", "Y")]), field("f", "X")])),
+            star(seq(vec![plus(choice(vec![field("f", "X"), field("g", "Y")])), lit("a")])),
+            plus(seq(vec![inc("Inc"), star(field("f", "X")), lit("a")])),
+        ] {
+            let g = root_grammar(vec![Directive::Export, Directive::NoSkipWs], e, &leaves);
+            add_if_wf(&mut b, "varying-counts", g, &spec);
+        }
+    }
     // override family: Root = r:R with R an override rule (plain overrides cannot be exported)
     for e in trees(&over_atoms, &NO_LOOKAHEAD_OPS, k_over) {
         let mut rules = vec![Rule::normal("R", vec![Directive::NoSkipWs], e.clone())];
@@ -435,6 +514,30 @@ pub fn c04(tier: Tier) -> Vec<Case> {
 
 pub fn c08(tier: Tier) -> Vec<Case> {
     let mut b = Builder::new();
+    // long whitespace runs between and around two tokens, with the built-in skipper
+    {
+        let mut inputs: Vec<String> = Vec::new();
+        let runs: Vec<String> = (0..=18usize).map(|n| " ".repeat(n)).chain([" \t\n\r\u{c} ".repeat(3), "\t".repeat(9), " ".repeat(64), " ".repeat(257)]).collect();
+        for a in &runs {
+            for m in &runs {
+                inputs.push(format!("{a}b{m}c"));
+            }
+            inputs.push(format!("{a}b"));
+            inputs.push(format!("b{a}c "));
+            inputs.push(format!("{a}b{a}\u{b}c"));
+        }
+        let spec = InputSpec::List(inputs);
+        for e in [seq(vec![lit("b"), lit("c"), Expr::Eoi]), seq(vec![lit("b"), opt(lit("c"))]), seq(vec![field("c", "char"), field("d", "char")]), seq(vec![range('b', 'c'), star(range('b', 'c'))])] {
+            for noskip in [false, true] {
+                let mut dirs = vec![Directive::Export, Directive::Position];
+                if noskip {
+                    dirs.push(Directive::NoSkipWs);
+                }
+                let g = root_grammar(dirs, e.clone(), &[]);
+                add_if_wf(&mut b, "ws/long-runs", g, &spec);
+            }
+        }
+    }
     let (k, k_small, len) = match tier {
         Tier::Quick => (2, 3, 4),
         Tier::Thorough => (3, 4, 5),
@@ -467,7 +570,7 @@ pub fn c08(tier: Tier) -> Vec<Case> {
     for e in &all {
         for root_noskip in [false, true] {
             for leaf_noskip in [false, true] {
-                for user_ws in [0, 1, 2] {
+                for user_ws in [0, 1, 2, 3, 4] {
                     let nd = |on: bool| if on { vec![Directive::NoSkipWs] } else { vec![] };
                     let mut leaves = vec![
                         // struct leaf with position, two tokens
@@ -485,6 +588,14 @@ pub fn c08(tier: Tier) -> Vec<Case> {
                     if user_ws == 2 {
                         // a Whitespace rule that is not idempotent: skips at most one filler
                         leaves.push(Rule::normal("Whitespace", vec![Directive::NoSkipWs], opt(lit("_"))));
+                    }
+                    if user_ws == 3 {
+                        // Whitespace as a @char rule: exactly one filler character is required before every token
+                        leaves.push(Rule::chr("Whitespace", vec![CharPart::Char(LitChar::canon('_'))]));
+                    }
+                    if user_ws == 4 {
+                        // Whitespace as an @extern rule (skips underscores and NBSP)
+                        leaves.push(Rule::ext("Whitespace", "hrt::user::ws_ext", Some("hrt::user::U")));
                     }
                     if user_ws == 1 {
                         leaves.push(Rule::normal(
@@ -507,7 +618,7 @@ pub fn c08(tier: Tier) -> Vec<Case> {
                         "ws/root_{}/leaf_{}/{}",
                         if root_noskip { "noskip" } else { "skip" },
                         if leaf_noskip { "noskip" } else { "skip" },
-                        ["builtin", "user", "user-once"][user_ws]
+                        ["builtin", "user", "user-once", "user-char-rule", "user-extern-rule"][user_ws]
                     );
                     add_if_wf(&mut b, &fam, g, if user_ws > 0 { &inputs_user } else { &inputs_builtin });
                 }
@@ -525,7 +636,7 @@ pub fn c09(tier: Tier) -> Vec<Case> {
         Tier::Quick => (3, 4),
         Tier::Thorough => (4, 5),
     };
-    let atoms = vec![field("f", "X"), field("s", "S"), field("e", "E"), field("n", "N"), lit("b"), lit("é")];
+    let atoms = vec![field("f", "X"), field("s", "S"), field("e", "E"), field("n", "N"), lit("b"), lit("é"), field("t", "T")];
     let inputs = InputSpec::Strings { alphabet: vec!['b', 'c', 'é', ' '], max_len: len };
     let all = trees(&atoms, &NO_LOOKAHEAD_OPS, k);
     // every subset of {X, S, N(+its child), Root} marked @position; E is an enum override of @position rules
@@ -547,6 +658,7 @@ pub fn c09(tier: Tier) -> Vec<Case> {
                     Rule::normal("E", vec![Directive::Position], choice(vec![over("P1"), over("P2")])),
                     Rule::normal("P1", vec![Directive::Position], seq(vec![lit("c"), lit("c")])),
                     Rule::normal("P2", vec![Directive::Position, Directive::Memoize], seq(vec![lit("c"), opt(lit("é"))])),
+                    Rule::ext("T", "hrt::user::tok2", None),
                 ];
                 let mut dirs = vec![Directive::Export, Directive::Position];
                 if root_noskip {
